@@ -686,6 +686,16 @@ func (t *Target) updateMeta(clients func(*ctree.Leaf)) {
 	t.generateMetaUpdates(clients)
 }
 
+// metaLeafValue returns the value stored at a metadata path, nil if there is
+// none or the leaf does not hold a single-valued notification.
+func (t *Target) metaLeafValue(path []string) *pb.TypedValue {
+	n, ok := t.t.GetLeafValue(path).(*pb.Notification)
+	if !ok || len(n.GetUpdate()) == 0 {
+		return nil
+	}
+	return n.GetUpdate()[0].GetVal()
+}
+
 func (t *Target) generateMetaUpdates(clients func(*ctree.Leaf)) {
 	for value := range metadata.TargetBoolValues {
 		if t.excludedMeta.Contains(value) {
@@ -696,8 +706,7 @@ func (t *Target) generateMetaUpdates(clients func(*ctree.Leaf)) {
 			continue
 		}
 		path := metadata.Path(value)
-		prev := t.t.GetLeafValue(path)
-		if prev == nil || prev.(*pb.Notification).Update[0].Val.Value.(*pb.TypedValue_BoolVal).BoolVal != v {
+		if prev, ok := t.metaLeafValue(path).GetValue().(*pb.TypedValue_BoolVal); !ok || prev.BoolVal != v {
 			noti := metaNotiBool(t.name, value, v)
 			if n, _ := t.gnmiUpdate(noti); n != nil {
 				if clients != nil {
@@ -716,8 +725,7 @@ func (t *Target) generateMetaUpdates(clients func(*ctree.Leaf)) {
 			continue
 		}
 		path := metadata.Path(value)
-		prev := t.t.GetLeafValue(path)
-		if prev == nil || prev.(*pb.Notification).Update[0].Val.Value.(*pb.TypedValue_IntVal).IntVal != v {
+		if prev, ok := t.metaLeafValue(path).GetValue().(*pb.TypedValue_IntVal); !ok || prev.IntVal != v {
 			noti := metaNotiInt(t.name, value, v)
 			if n, _ := t.gnmiUpdate(noti); n != nil {
 				if clients != nil {
@@ -736,8 +744,7 @@ func (t *Target) generateMetaUpdates(clients func(*ctree.Leaf)) {
 			continue
 		}
 		path := metadata.Path(value)
-		prev := t.t.GetLeafValue(path)
-		if prev == nil || prev.(*pb.Notification).Update[0].Val.Value.(*pb.TypedValue_StringVal).StringVal != v {
+		if prev, ok := t.metaLeafValue(path).GetValue().(*pb.TypedValue_StringVal); !ok || prev.StringVal != v {
 			noti := metaNotiStr(t.name, value, v)
 			if n, _ := t.gnmiUpdate(noti); n != nil {
 				if clients != nil {
